@@ -459,3 +459,12 @@ def run(chk):
     r11_control_word_decision(chk, prog)
     chk.rule('R12', 'the stored value never depends on the previous content of the destination', 10)
     r12_store_independent_of_destination(chk, prog)
+    # R14: a value list `-v a,b,c` is the same as one value per occurrence only if the list-splitting assign() works
+    # through EVERY element and finishes its pipeline (sort) - the pipeline obligations of C06-R1, shared
+    from . import c06
+    chk.rule('R14', 'list spelling: every element of a value list passes the whole assign pipeline (shared with C06-R1)', 50)
+    sub3 = type(chk)(chk.pid, chk.tier)
+    sub3._known = []
+    c06.r1(sub3, prog)
+    for o in sub3.obligations:
+        chk.check(o['status'] == 'held', 'R14', o['function'], o['what'], o['where'], o.get('detail', ''))
